@@ -39,10 +39,11 @@ package test
 //@   modifies s[*]
 //@   ensures [short] len(s) < 2 ==> err != nil && (forall k mathint :: {s[k]} 0 <= k && k < len(s) ==> s[k] == old(s[k]))
 //@   ensures [mirror] len(s) >= 2 ==> err == nil && (forall k mathint :: {s[k]} 0 <= k && k < len(s) ==> s[k] == old(s[len(s) - 1 - k]))
-//@   loop 1 invariant [mirror] 0 <= i && j == len(s) - 1 - i && i <= j + 1 &&
+//@   loop 1 invariant? [aux] j == len(s) - 1 - i
+//@   loop 1 invariant [mirror] 0 <= i && 2 * i <= len(s) &&
 //@        (forall k mathint :: {s[k]} 0 <= k && k < i ==> s[k] == old(s[len(s) - 1 - k])) &&
-//@        (forall k mathint :: {s[k]} j < k && k < len(s) ==> s[k] == old(s[len(s) - 1 - k])) &&
-//@        (forall k mathint :: {s[k]} i <= k && k <= j ==> s[k] == old(s[k]))
+//@        (forall k mathint :: {s[k]} len(s) - 1 - i < k && k < len(s) ==> s[k] == old(s[len(s) - 1 - k])) &&
+//@        (forall k mathint :: {s[k]} i <= k && k <= len(s) - 1 - i ==> s[k] == old(s[k]))
 
 //@ func drop(s [][]byte, offset int, n int) (r [][]byte)
 //@   requires 0 <= offset && offset <= len(s) && n >= 0 && n < 4611686018427387904
